@@ -121,6 +121,8 @@ pub enum Tamper {
     Prefix(u8),
     /// x + p when it fits (non-canonical alias of the genuine C1)
     C1XPlusP,
+    /// y + p when it fits
+    C1YPlusP,
 }
 
 #[derive(Serialize, Deserialize, Hash, Debug, Clone)]
@@ -203,6 +205,14 @@ pub fn check_tamper(c: &TCase) -> CaseResult {
             ct[1..33].copy_from_slice(&to32(&x));
             class = "C1-x+p";
         }
+        Tamper::C1YPlusP => {
+            let y = from_be(&ct[33..65]) + pr.p;
+            if y.bits() > 256 {
+                return pass(false, "y+p-does-not-fit");
+            }
+            ct[33..65].copy_from_slice(&to32(&y));
+            class = "C1-x+p";
+        }
     }
     // the reference decryptor uses the key of the identity the caller names
     let de_for = if matches!(c.tamper, Tamper::OtherIdentity) { de_ref.clone() } else { de_ref };
@@ -255,6 +265,7 @@ pub fn tamper_strategy() -> impl Strategy<Value = Tamper> {
         3 => any::<u64>().prop_map(Tamper::C1OffCurveForged),
         2 => any::<u8>().prop_map(Tamper::Prefix),
         1 => Just(Tamper::C1XPlusP),
+        1 => Just(Tamper::C1YPlusP),
         1 => Just(Tamper::None),
     ]
 }
@@ -346,6 +357,16 @@ pub fn run(ctx: &Ctx) {
             for j in 0..6u64 {
                 v.push(TCase { base: b.clone(), tamper: Tamper::C1OffCurveForged(j) });
             }
+        }
+        v
+    }, check_tamper);
+
+    let nal = ctx.tier.pick(12usize, 60usize);
+    ctx.listed("noncanonical_c1_aliases", "x+p and y+p encodings of the genuine C1 (each fits in 32 bytes for about 29% of the coordinates) over many bases", move || {
+        let mut v = Vec::new();
+        for b in fixed_bases(seed ^ 0x77, nal) {
+            v.push(TCase { base: b.clone(), tamper: Tamper::C1XPlusP });
+            v.push(TCase { base: b.clone(), tamper: Tamper::C1YPlusP });
         }
         v
     }, check_tamper);
